@@ -9,6 +9,41 @@ NOTE = old_checks["C12"]["level_note"]
 TECH = "Lean 4 theorem about an executable model + regenerated facts + differential correspondence"
 
 LEVEL = {
+ "C17": "Lean 4 theorems over a model of ArchiveFile::GetIndex/Contains and ResourceManager with the directory layout, archive load order and "
+        "pattern predicate as parameters: contains <-> index, the index names an equal member, lookup invariant under PathsAreEqual-equal "
+        "spellings (case), duplicate-free => index(name i) = i, out-of-range refused; resolution stated outright (rooted refused, loose file "
+        "first, else first containing archive, else nothing, access off => loose only); containing archive really contains; exact "
+        "characterisation of type and pattern listings incl. the de-duplication rule; real ResourceManager on scratch directories with loose "
+        "files, sub-directories, 0-2 VOL + 0-1 CLM archives with overlapping names, every query in several spellings, against the compiled "
+        "model and Python oracles computed from the layout alone",
+ "C03": "Lean 4 theorems over a model of ClmFile create/open/stream/extract and the WAV chunk walk: C03_roundtrip (names without extension in "
+        "case-insensitive order, size = data-chunk length, stream = exactly that chunk, extracted WAV self-consistent with the common format, "
+        "for any chunks before/between/after fmt and data), C03_layout and C03_bytes_are_reference (archive = independent Clm.Spec encoding "
+        "byte for byte), order independence, refusals; real pack/reopen/extract runs under ASan/UBSan over a chunk-layout grammar against the "
+        "compiled model and structural oracles",
+ "C05": "Lean 4 theorems for both readers: VOL open and every call sequence never fault in a model whose raw memory operations are bounds-checked "
+        "primitives, failed calls are no-ops, streams deliver exactly the recorded extent or refuse (never short), history independence; CLM: the "
+        "chunk walk terminates with fuel <= len/8+1 (and provably does not with the pinned 32-bit cursor), arbitrary bytes as WAVs never hang, "
+        "stream/extract exactness, index bounds; forked, watchdogged ASan/UBSan runs on every prefix, every integer field x boundary values and "
+        "coordinated corruptions of valid archives with all call sequences of length <= 3",
+ "C06": "Lean 4 theorems over parser-combinator models of Map::ReadMap / Write and the four edits: the reader's result is well formed, "
+        "write = frozen Spec.encode, read(write m) = m, byte stability, written bytes = consumed bytes up to the two normalised words, trailing "
+        "bytes ignored (Local), per-edit frame theorems and round trip after every edit history, bad version tags refused; whole field dumps and "
+        "written bytes of the real Map compared with the compiled model on reference-encoded maps and edit sequences",
+ "C07": "Lean 4 theorems: no fault (checked shifts: no over-wide shift, no truncated product) on every byte string for map and saved-game "
+        "readers, returned maps have width 2^k (k < 32) and exactly width*height tiles in N, every proper prefix cutting into the consumed part is "
+        "refused (structural Local lemma), saved game and map file with the same embedded portion agree; forked ASan/UBSan runs over prefixes, "
+        "field x boundary values (lg 31, 32, 40, heights crossing 2^32) against the compiled model",
+ "C10": "Lean 4 theorems over a parser-combinator model of the PRT reader/writer: accepted input satisfies the cross-field rules in N, accepted "
+        "input = encoding of the result ++ rest, write->read identity, byte stability, canonical palette headers => write = consumed bytes, "
+        "palette order BGR in file / RGB in memory, writer refuses rule violations, write = frozen Spec.encode; full structural dumps of the real "
+        "ArtFile and written bytes compared with the compiled model over reference-encoded files with all flag combinations and layer counts",
+ "C11": "Lean 4 theorems (PRT part; bitmap/tileset part pending integration): loader outcome depends on the consumed prefix only, every proper "
+        "prefix refused, on every loaded object image extraction by any index against any pixel file never reaches a fault, index >= count is an "
+        "ordinary error; forked ASan/UBSan runs over prefixes, field x boundary corruptions and every follow-up operation on every returned object",
+ "C20": "Lean 4 refusal implications with converse non-vacuity lemmas: VOL member >= 2^31 bytes or accumulated offset beyond 32 bits refused before "
+        "the destination is touched, CLM offset+length beyond 2^32-1 and names > 8 refused (exactly), frame layer list disagreeing with its 7-bit "
+        "count refused; sparse multi-GiB files and boundary containers on the real writers with destination snapshots",
  "C01": "Lean 4 theorems over a model of VolFile::CreateArchive / open / per-member calls: C01_roundtrip (for every file list that fits: one member "
         "per input in case-insensitive order, exact sizes, 'uncompressed', stream and extraction return the input bytes), lookup in any letter "
         "case, C01_perm (bytes or refusal identical for every permutation of the inputs), refusal of duplicate names and of output = input, "
